@@ -38,16 +38,46 @@ var (
 
 // buildQuery renders PC /\ not(goal) together with variable facts and axiom instances.
 func (ex *Exec) buildQuery(pc []*Term, goal *Term, cover bool) string {
+	return ex.buildQueryMode(pc, goal, cover, false)
+}
+
+// Sequence mode: the sort B of byte strings is (Seq Int) and blen/bcat/bsub/bat are the theory's own operations, so
+// the solver reasons about layouts (concatenation, slicing, copy) itself; every other function over B (le64, sha256,
+// string constants, ...) stays uninterpreted with its length facts. The length facts the engine knows for B terms are
+// kept as hypotheses: they hold in every real execution because all slicing and copying is bounds-checked.
+const seqPrelude = `(define-fun blen ((x B)) Int (seq.len x))
+(define-fun bcat ((x B) (y B)) B (seq.++ x y))
+(define-fun bsub ((x B) (o Int) (n Int)) B (seq.extract x o n))
+(define-fun bat ((x B) (i Int)) Int (seq.nth x i))
+(define-fun bunit ((c Int)) B (seq.unit c))
+`
+
+func (ex *Exec) buildQueryMode(pc []*Term, goal *Term, cover bool, seq bool) string {
 	var asserts []*Term
 	asserts = append(asserts, pc...)
 	if !cover {
 		asserts = append(asserts, Not(goal))
 	}
+	if seq {
+		asserts = ex.expandSeqDefs(asserts)
+	}
 	asserts = ex.closeFacts(asserts)
 	d := collectDecls(asserts)
 	var sb strings.Builder
 	sb.WriteString("(set-option :produce-models true)\n(set-logic ALL)\n")
-	d.print(&sb, false)
+	if seq {
+		seqBuiltin = map[string]bool{"blen": true, "bcat": true, "bsub": true, "bat": true, "bunit": true}
+		d.sorts[SB] = true
+		d.print(&sb, true)
+		seqBuiltin = map[string]bool{}
+		// the definitions must follow the sort and precede every use
+		out := sb.String()
+		i := strings.Index(out, "(define-sort B () (Seq Int))\n") + len("(define-sort B () (Seq Int))\n")
+		sb.Reset()
+		sb.WriteString(out[:i] + seqPrelude + out[i:])
+	} else {
+		d.print(&sb, false)
+	}
 	smtDefs(&sb, asserts)
 	sb.WriteString("(check-sat)\n(get-model)\n")
 	return sb.String()
@@ -172,6 +202,9 @@ func (ex *Exec) closeFacts(asserts []*Term) []*Term {
 					case "le64":
 						add(Eq(App("blen", SInt, x), IntC(8)))
 						add(Eq(App("le64inv", SInt, x), x.Args[0]))
+					case "bunit":
+						add(Eq(App("blen", SInt, x), IntC(1)))
+						add(Eq(App("bat", SInt, x, IntC(0)), x.Args[0]))
 					case "bzero":
 						add(Eq(App("blen", SInt, x), x.Args[0]))
 					case "bupd":
@@ -321,7 +354,10 @@ func solve(cfg *SolverCfg, smt string) *qResult {
 	if cfg.Timeout < short {
 		short = cfg.Timeout
 	}
-	r, out := runOne(context.Background(), solvers[0], file, short)
+	r, out := "unknown", ""
+	if !strings.Contains(smt, "(define-sort B () (Seq Int))") { // sequence queries go to the whole portfolio at once (cvc5 carries them)
+		r, out = runOne(context.Background(), solvers[0], file, short)
+	}
 	if r != "unknown" {
 		res.res, res.solver, res.raw = r, solvers[0].name, out
 	} else {
@@ -406,7 +442,12 @@ func (ex *Exec) Discharge(cfg *SolverCfg, obls []*Obligation) {
 			continue
 		}
 		if ob.Kind == "cover" {
-			jobs = append(jobs, job{ob: ob, smt: ex.buildQuery(ob.PC, ob.Goal, true)})
+			jobs = append(jobs, job{ob: ob, smt: ex.buildQueryMode(ob.PC, ob.Goal, true, ob.Seq)})
+			continue
+		}
+		if ob.Seq {
+			// layout obligations: full path condition, sequence encoding
+			jobs = append(jobs, job{ob: ob, smt: ex.buildQueryMode(ob.PC, ob.Goal, false, true)})
 			continue
 		}
 		rel := relevant(ob.PC, ob.Goal)
@@ -486,3 +527,48 @@ func (ex *Exec) Discharge(cfg *SolverCfg, obls []*Obligation) {
 
 // Retried counts the obligations that needed the sequential long-budget retry in this run.
 var Retried int
+
+// expandSeqDefs adds, for every application of a function that has a `seqdef`, the equation between the application
+// and its definition instantiated at the arguments (a definitional extension: the function has no other axioms).
+func (ex *Exec) expandSeqDefs(asserts []*Term) []*Term {
+	if ex.Specs == nil || len(ex.Specs.SeqDefs) == 0 {
+		return asserts
+	}
+	seen := map[string]bool{}
+	out := append([]*Term(nil), asserts...)
+	for changed := true; changed; {
+		changed = false
+		n := len(out)
+		for _, a := range out[:n] {
+			a.Walk(func(x *Term) {
+				if x.Op != "app" {
+					return
+				}
+				sd := ex.Specs.SeqDefs[x.Name]
+				if sd == nil || len(sd.Params) != len(x.Args) || seen[x.Key()] {
+					return
+				}
+				seen[x.Key()] = true
+				names := map[string]Value{}
+				for i, p := range sd.Params {
+					names[p] = x.Args[i]
+				}
+				var errs []string
+				st := &State{Heap: map[*Object]Value{}, PreHeap: map[*Object]Value{}, Ghost: map[string]Value{}, PreGhost: map[string]Value{}, Held: map[string]int{}}
+				env := &Env{ex: ex, st: st, names: names, errs: &errs}
+				var body Value
+				if sd.Body.Op == "" && sd.Body.E != nil {
+					body = env.eval(sd.Body.E)
+				}
+				bt, ok := body.(*Term)
+				if !ok || bt.Sort != x.Sort {
+					ex.Specs.Errors = append(ex.Specs.Errors, fmt.Sprintf("%s: seqdef %s: cannot evaluate the definition (%s)", sd.Line, sd.Name, strings.Join(errs, "; ")))
+					return
+				}
+				out = append(out, Eq(x, bt))
+				changed = true
+			})
+		}
+	}
+	return out
+}
